@@ -34,8 +34,10 @@ class Built:
     """A program realised with real tensors."""
 
     def __init__(self, prog: list[dict], dtype=torch.float64, rng: random.Random | None = None,
-                 shapes: list | None = None):
+                 shapes: list | None = None, scalars: tuple | list = ()):
+        """``scalars``: node ids (1-based) that must be 0-d tensors (losses of mtl_backward)."""
         rng = rng or random.Random(0)
+        scalars = set(scalars)
         self.prog = prog
         self.dtype = dtype
         self.t: list[torch.Tensor] = []          # 0-based: self.t[i-1] is node i
@@ -67,7 +69,7 @@ class Built:
                     y = torch.cat([a.reshape(-1), b.reshape(-1)])
                 else:
                     raise ValueError(f"unknown op {op}")
-            shape = tuple(shapes[idx]) if shapes else pick_shape(y.numel(), rng)
+            shape = tuple(shapes[idx]) if shapes else (() if (idx + 1) in scalars else pick_shape(y.numel(), rng))
             self.t.append(y.reshape(shape))
             self.shapes.append(shape)
 
